@@ -18,7 +18,7 @@ TAGVALS = ["a", "b1", "x.y", "k=v", "t-1", "Z", "ü", "Bob\\tMarley", "two\\nlin
 def tag_text(v):
     return v.replace("\\t", "_").replace("\\n", "_")
 SCHEMAS = [None, u"{name} -- @{row.id} {examples.name}", u"{name} [{row.index}/{examples.index}]", u"{examples.name}:{row.id}:{name}",
-           u"{name}", u"{row.id}", u"{name} -*- {examples.name}@{row.index} ({examples.index})"]
+           u"{name}", u"{row.id}", u"{name} -*- {examples.name}@{row.index} ({examples.index})", u""]
 RULE = ("outlines with placeholders in name, step names, doc-strings, step-table headings and cells and tags; 0-3 examples "
         "blocks with different column orders, own tags and 0-3 rows (also none at all); cell values empty, unicode, equal "
         "to OTHER column names as plain text, containing format braces; name-annotation schemas over {name} {row.id} "
@@ -36,7 +36,7 @@ ASSUMPTIONS = [
 REQUIRED = {"expand.count_and_order": {"quick": 1500, "thorough": 100000}, "expand.row_scenario": {"quick": 3000, "thorough": 200000},
             "expand.template_unchanged": {"quick": 1500, "thorough": 100000}, "expand.rows_independent": {"quick": 800, "thorough": 50000},
             "modify.rebuilt": {"quick": 800, "thorough": 50000}, "builder.count": {"quick": 1500, "thorough": 100000}}
-REQUIRED_SEEN = {"examples_shape": ["section_without_table_before_rows"], "tag_placeholder_column": ["name_with_punctuation"], "schema": 6, "modification": ["add_row", "add_row_object", "add_column", "remove_column"]}
+REQUIRED_SEEN = {"outline_place": ["in_rule", "in_feature"], "examples_shape": ["section_without_table_before_rows"], "tag_placeholder_column": ["name_with_punctuation"], "schema": 7, "modification": ["add_row", "add_row_object", "add_column", "remove_column"]}
 NSHARDS = {"quick": 16, "thorough": 16}
 
 
@@ -104,7 +104,12 @@ def gen_outline(rng):
     outline = {"kind": "outline", "tags": tags, "name": "O " + text(2), "desc": ["%% description <%s>" % cols[0]] if rng.random() < 0.3 else [],
                "steps": steps, "examples": examples}
     before = [{"kind": "scenario", "tags": [], "name": "before", "desc": [], "steps": [{"kw": "Given", "text": "a step"}]}] if rng.random() < 0.5 else []
-    feature = {"kind": "feature", "tags": ["f"], "name": "F", "desc": [], "background": None, "items": before + [outline]}
+    if rng.random() < 0.3:
+        # the outline inside a Rule (the feature-level flat scenario list still holds one scenario per row)
+        rule = {"kind": "rule", "tags": [], "name": "R", "desc": [], "background": None, "items": [outline]}
+        feature = {"kind": "feature", "tags": ["f"], "name": "F", "desc": [], "background": None, "items": before + [rule]}
+    else:
+        feature = {"kind": "feature", "tags": ["f"], "name": "F", "desc": [], "background": None, "items": before + [outline]}
     return feature, len(before)
 
 
@@ -116,7 +121,8 @@ def subst(text, header, row):
 
 def expected_rows(outline, schema, row_lines):
     """[(name, tags, steps[(keyword, name, doc, table)], line)] by plain textual substitution."""
-    schema = schema or u"{name} -- @{row.id} {examples.name}"
+    if schema is None:          # (the empty schema is a schema: every row is then called "")
+        schema = u"{name} -- @{row.id} {examples.name}"
     out = []
     for ei, ex in enumerate(outline["examples"]):
         for ri, row in enumerate(ex["rows"]):
@@ -190,14 +196,18 @@ def one_case(mon, rng, sample=False):
     from behave.parser import parse_feature
     feature, idx = gen_outline(rng)
     outline_abs = feature["items"][idx]
+    in_rule = outline_abs["kind"] == "rule"
+    if in_rule:
+        outline_abs = outline_abs["items"][0]
     layout = rng.random() < 0.5
     text, lines = render_feature(feature, rng, layout)
     schema = rng.choice(SCHEMAS)
     f = parse_feature(text, filename="o.feature")
-    o = f.run_items[idx]
+    o = f.run_items[idx].run_items[0] if in_rule else f.run_items[idx]
     if schema is not None:
         o.annotation_schema = schema
-    key = ("item", idx)
+    key = ("item", idx, "item", 0) if in_rule else ("item", idx)
+    mon.seen("outline_place", "in_rule" if in_rule else "in_feature")
     row_lines = {}
     for ei, ex in enumerate(outline_abs["examples"]):
         for ri in range(len(ex["rows"])):
@@ -236,6 +246,14 @@ def one_case(mon, rng, sample=False):
         if g[3] != w[3]:
             diffs.append(("line", g[3], w[3]))
         mon.check("expand.row_scenario", not diffs, lambda: W(row=w[0], differences=diffs[:3]))
+    # the flat lists of the feature: the scenarios in front of the outline, then one scenario per row (the outline itself
+    # only on request)
+    flat = [x.name for x in f.walk_scenarios()]
+    flat_o = [x for x in f.walk_scenarios(with_outlines=True)]
+    n_before = idx
+    mon.check("expand.flat_scenario_list_of_the_feature", flat[n_before:] == [w[0] for w in want] and len(flat) == n_before + len(want)
+              and [x for x in flat_o if x is o] == [o] and [x.name for x in f.iter_scenarios()] == flat,
+              lambda: W(outline_in_rule=in_rule, flat=flat, want=[w[0] for w in want]))
     for s in scen:
         mon.check("expand.row_links", s.parent is o and s.feature is f and s.keyword == o.keyword and list(s.description) == list(o.description),
                   lambda: W(row=s.name, parent=repr(s.parent)))
